@@ -194,7 +194,13 @@ def correspondence(chk, binp, n_fonts, texts, per_file, max_heavy):
     tot = {"cases": 0, "agree": 0, "outside_table": 0, "outside_alloc": 0, "both_fail": 0, "evaluation_abandoned": 0, "moved": 0,
            "long_output_cases": len(heavy_cases), "long_output_cases_compared": len(chosen)}
     kinds = {k: [0, 0] for k in KINDS}
+    timed_out = []
     for name, out in sorted(res.items()):
+        if isinstance(out, Exception) and "rc=124" in str(out):
+            # the list-based model needs minutes where a state machine spends its whole operation budget on non-advancing
+            # transitions (1024 per character; the implementation does that in microseconds): the file is cut off
+            timed_out.append(name)
+            continue
         if isinstance(out, Exception):
             dis.append({"what": "cases-file-failed", "file": name, "error": str(out)[-800:]})
             continue
@@ -215,6 +221,13 @@ def correspondence(chk, binp, n_fonts, texts, per_file, max_heavy):
             kinds[kname][0] += st[6 + 2 * n_]
             kinds[kname][1] += st[7 + 2 * n_]
         tot["moved"] += st[16]
+    # files cut off: reported as not evaluated (evidence), as the abandoned cases inside a file are; a broken tie only when they
+    # are many, or in the quick tier (whose files all finish on the unchanged tree)
+    tot["files_cut_off_not_evaluated"] = len(timed_out)
+    chk.note("model_evaluation_cut_off", timed_out)
+    if timed_out and (chk.tier != "thorough" or len(timed_out) * 20 > len(res)):
+        for name in timed_out:
+            dis.append({"what": "cases-file-failed", "file": name, "error": "cut off after the time limit"})
     return dis, tot, kinds, generic, fonts
 
 
